@@ -660,21 +660,35 @@ def P25(m, R):
     g = guard_returning_false(lambda n: 'not ' + codes in norm(n.test) and 'RESET' in norm(n.test))
     ok = g is not None and norm(g.test) in ('not %s or %s[0] == AnsiParam.RESET.value' % (codes, codes),)
     R.check(ok, f, g or f.node, 'empty or reset-first is not parsable', 'guard is %s' % (short(g.test) if g else None), construct='clause: empty / reset')
-    # each code int in 0..255
+    # each code int in 0..255 (loop with an early `return False`, or all()/any())
+    from ..shapes import reject_predicate
     lp = next((n for n in f.walk() if isinstance(n, ast.For) and norm(n.iter) == codes), None)
     ok = False
-    if lp is not None and len(lp.body) == 1 and isinstance(lp.body[0], ast.If):
-        c = norm(lp.target)
-        t = lp.body[0].test
+    tt = {}
+    rp_ = None
+    if lp is None:
+        for n in f.walk():
+            if isinstance(n, ast.If) and any(isinstance(x, ast.Return) and const_val(x.value) is False for x in n.body):
+                from ..shapes import quantifier
+                q_ = quantifier(n.test)
+                if q_ is not None and norm(q_[1]) == codes:
+                    # `if not all(Q): return False` arrives as kind 'any' of (not Q): rejects iff not Q
+                    rp_ = (q_[2], q_[3] if q_[0] == 'any' else ast.UnaryOp(op=ast.Not(), operand=q_[3]), n)
+    if lp is not None and len(lp.body) == 1 and isinstance(lp.body[0], ast.If) or rp_ is not None:
+        c = norm(lp.target) if lp is not None else norm(rp_[0])
+        t = lp.body[0].test if lp is not None else rp_[1]
         tt = {}
         for nm, isint, rank in (('str', False, 1), ('<0', True, -1), ('0', True, 0), ('mid', True, 1), ('255', True, 255), ('>255', True, 256)):
             val = merge_valuations(flag_valuation({}, {'isinstance(%s, int)' % c: isint, 'not isinstance(%s, int)' % c: not isint}),
                                    order_valuation({c: rank, '0': 0, '255': 255, '256': 256}))
             tt[nm] = eval_guard(t, val)
         ok = tt == {'str': True, '<0': True, '0': False, 'mid': False, '255': False, '>255': True} and \
-            any(isinstance(x, ast.Return) and const_val(x.value) is False for x in lp.body[0].body)
-    R.check(ok, f, lp or f.node, 'every code must be an int in 0..255', 'range guard rejects %s' % (sorted(k for k, v in tt.items() if v) if lp is not None and 'tt' in dir() else None),
-            construct='clause: codes int 0..255')
+            (rp_ is not None or any(isinstance(x, ast.Return) and const_val(x.value) is False for x in lp.body[0].body))
+    if lp is None and rp_ is None:
+        R.undecided(f, f.node, 'the per-code range check is not recognised', construct='clause: codes int 0..255')
+    else:
+        R.check(ok, f, lp or rp_[2], 'every code must be an int in 0..255', 'range guard rejects %s' % sorted(k for k, v in tt.items() if v),
+                construct='clause: codes int 0..255')
     # first code known
     tr = next((n for n in f.walk() if isinstance(n, ast.Try)), None)
     ok = tr is not None and any(norm(x) == 'AnsiParam(%s[0])' % codes for x in ast.walk(tr) if isinstance(x, ast.Call)) and \
@@ -695,10 +709,20 @@ def P25(m, R):
                 g = guard_returning_false(lambda n: norm(n.test) == flag)
                 ok = g is not None
     R.check(ok, f, lp2 or f.node, 'a colour code (38/48/58) without one of its setup sequences is not parsable', construct='clause: function code without setup')
-    # to_list: every token appended exactly once
+    # to_list: every token appended exactly once (a loop with try/int/except, or a comprehension over a convert-or-keep helper)
     tl = m.fn('AnsiSetting.to_list')
     lp3 = next((n for n in tl.walk() if isinstance(n, ast.For)), None)
-    ok = False
+    ok = None
+
+    def int_or_same(h):
+        """h(x): try: return int(x) except ValueError: return x"""
+        b = h.body
+        if len(b) == 1 and isinstance(b[0], ast.Try) and len(b[0].handlers) == 1 and norm(b[0].handlers[0].type) == 'ValueError':
+            t_ = [x for x in b[0].body if isinstance(x, ast.Return)]
+            e_ = [x for x in b[0].handlers[0].body if isinstance(x, ast.Return)]
+            p0 = h.params[0] if h.params else None
+            return len(t_) == 1 and norm(t_[0].value) == 'int(%s)' % p0 and len(e_) == 1 and norm(e_[0].value) == p0
+        return False
     if lp3 is not None:
         apps = [x for x in ast.walk(lp3) if isinstance(x, ast.Call) and call_name(x) == 'append']
         tr3 = next((n for n in lp3.body if isinstance(n, ast.Try)), None)
@@ -707,7 +731,19 @@ def P25(m, R):
             len(tr3.handlers) == 1 and norm(tr3.handlers[0].type) == 'ValueError' and \
             any(call_name(x) == 'append' for x in ast.walk(ast.Module(body=tr3.handlers[0].body, type_ignores=[])) if isinstance(x, ast.Call)) and \
             any(call_name(x) == 'append' for x in ast.walk(ast.Module(body=tr3.orelse or tr3.body, type_ignores=[])) if isinstance(x, ast.Call))
-    R.check(ok, tl, lp3 or tl.node, 'to_list keeps every ;-separated token once: as int when it converts, as text otherwise', construct='to_list tokens')
+    else:
+        rets_ = [n for n in tl.walk() if isinstance(n, ast.Return)]
+        if len(rets_) == 1 and isinstance(rets_[0].value, ast.ListComp) and len(rets_[0].value.generators) == 1:
+            g_ = rets_[0].value.generators[0]
+            e_ = rets_[0].value.elt
+            if norm(g_.iter) == 'self._str.split(ansi_sep)' and not g_.ifs and isinstance(e_, ast.Call) and len(e_.args) == 1 and \
+                    norm(e_.args[0]) in ('%s.strip()' % norm(g_.target), norm(g_.target)):
+                h_ = m.funcs.get(call_name(e_)) or m.funcs.get('AnsiSetting.%s' % call_name(e_))
+                ok = h_ is not None and int_or_same(h_)
+    if ok is None:
+        R.undecided(tl, tl.node, 'token conversion of to_list not recognised', construct='to_list tokens')
+    else:
+        R.check(ok, tl, lp3 or tl.node, 'to_list keeps every ;-separated token once: as int when it converts, as text otherwise', construct='to_list tokens')
 
 
 # ----------------------------------------------------------------------------------------------------------------------
